@@ -432,8 +432,9 @@ class BBWeak(Case):
         from pyvc.stream import WeakStream
 
         cs = cstruct(endian=self.endian)
-        cs.load("enum E : uint16 { A = 1 };", compiled=False)
+        cs.load("enum E : uint16 { A = 1 }; enum E24 : int24 { B = 1 };", compiled=False)
         T = getattr(cs, self.tname)
+        T = getattr(T, "type", T) if hasattr(T, "__members__") else T  # the bit reader is handed the storage type of an enum
         n = T.size
         s = WeakStream(ctx)
         it = Interp(ctx)
@@ -461,7 +462,9 @@ class BBWeak(Case):
         from dissect.cstruct.bitbuffer import BitBuffer
 
         cs = cstruct(endian=self.endian)
+        cs.load("enum E : uint16 { A = 1 }; enum E24 : int24 { B = 1 };", compiled=False)
         T = getattr(cs, self.tname)
+        T = getattr(T, "type", T) if hasattr(T, "__members__") else T
         n = T.size
 
         class Short(io.BytesIO):
@@ -492,4 +495,4 @@ def make_bbweak(tname, endian):
 
 
 def weak_specs():
-    return [("contracts.bitbuffer", "make_bbweak", (t, e)) for t in ("uint8", "uint16", "int32", "uint64", "uint24", "char") for e in ("<", ">")]
+    return [("contracts.bitbuffer", "make_bbweak", (t, e)) for t in ("uint8", "uint16", "int32", "uint64", "uint24", "int24", "int48", "uint128", "char", "E", "E24") for e in ("<", ">")]
